@@ -135,6 +135,26 @@ func RunCheck(o CheckOptions) int {
 		fmt.Fprintln(os.Stderr, err)
 		return 2
 	}
+	genTmp, err := os.MkdirTemp("", "hcsym-gen-")
+	if err != nil {
+		fmt.Fprintln(os.Stderr, err)
+		return 2
+	}
+	defer os.RemoveAll(genTmp)
+	gen, err := Generate(o.Repo, hdir, genTmp)
+	if err != nil {
+		fmt.Fprintln(os.Stderr, "GENERATE FAILED:", err)
+		return 2
+	}
+	for virt, real := range gen {
+		b, err := os.ReadFile(real)
+		if err != nil {
+			fmt.Fprintln(os.Stderr, err)
+			return 2
+		}
+		ov[virt] = b
+		realOf[virt] = real
+	}
 	P, err := Load(LoadConfig{EngineDir: filepath.Join(o.VerifDir, "engine"), Overlay: ov,
 		Patterns: []string{"hcverif/...", "github.com/brutella/hc/..."}})
 	if err != nil {
